@@ -212,7 +212,9 @@ pub fn execute(s: &ForScn, ctx: &mut Ctx) {
                     let wb = world.borrow();
                     for e in wb.log.iter().filter(|e| e.dev as usize == SHP && e.kind == OpKind::Read) {
                         if e.pos + e.moved as u64 > declared as u64 {
-                            ctx.fail("C03", "reads-past-declared-length", "read", format!("read of {} bytes at {} with a declared length of {}", e.moved, e.pos, declared));
+                            // not a violation in itself ("ignored" is judged on the decoded result, which
+                            // is compared with the model above): only counted
+                            ctx.stats.reach("read-beyond-declared-length");
                             break;
                         }
                     }
